@@ -602,3 +602,22 @@ def absent_at(cfg, node, kwname="kwargs"):
             if cfg.dominates(t, node) and holds_on_edge(cfg, t, node, lab):
                 out.add(e.left.value)
     return out
+
+
+MEMO_DECORATORS = {"functools.lru_cache", "functools.cache", "functools.cached_property", "functools32.lru_cache", "cachetools.cached", "cachetools.func.lru_cache", "cachetools.func.ttl_cache"}
+
+
+def memoised_helpers(idx, fi):
+    """functions reached from `fi` (helpers included, on the source as written) that carry a result cache: [(helper, decorator text)]"""
+    out = []
+    reach = list(helper_closure(idx, fi))
+    for f_ in list(reach) + [g for f2 in reach for g in getattr(f2, "nested", {}).values()]:
+        node = getattr(f_, "node_orig", None) or getattr(f_, "node", None)
+        if node is None:
+            continue
+        for d_ in getattr(node, "decorator_list", []):
+            target = d_.func if isinstance(d_, ast.Call) else d_
+            q = idx.qualname(f_.module, target, f_) if isinstance(target, (ast.Name, ast.Attribute)) else None
+            if q in MEMO_DECORATORS or (q or src(target)).split(".")[-1] in ("lru_cache", "memoize", "memoized", "cached"):
+                out.append((f_, src(d_)))
+    return out
